@@ -1706,6 +1706,7 @@ theorem structEq_eval_map_nil (env : Env) (K V : Ty) :
 /-- evaluate `hasType` on closed terms (give the definitions of the data to unfold) -/
 syntax "ty_eval" (" [" Lean.Parser.Tactic.simpLemma,* "]")? : tactic
 macro_rules
+  | `(tactic| ty_eval) => `(tactic| ty_eval [Val.slen])
   | `(tactic| ty_eval [$ls,*]) => `(tactic|
       set_option linter.unusedSimpArgs false in
       simp [$ls,*, hasType_eval_named, hasType_eval_basic, hasType_eval_ptr_nil, hasType_eval_ptr,
@@ -1716,6 +1717,7 @@ macro_rules
 /-- evaluate `cmpVal` / `structEq` on closed terms (give the definitions of the data to unfold) -/
 syntax "cmp_eval" (" [" Lean.Parser.Tactic.simpLemma,* "]")? : tactic
 macro_rules
+  | `(tactic| cmp_eval) => `(tactic| cmp_eval [Val.slen])
   | `(tactic| cmp_eval [$ls,*]) => `(tactic|
       set_option linter.unusedSimpArgs false in
       simp [$ls,*, cmpVal_struct, cmpSeq_scons, cmpSeq_snil, cmpVal_int, cmpVal_ptr, cmpVal_slice,
